@@ -25,6 +25,7 @@ type c09Type struct {
 
 func c09Hierarchy(rng *rand.Rand, feat map[string]int) (decls string, types []*c09Type, ifaces []string) {
 	var b strings.Builder
+	// one declaration per line group; chunks are split at "\n//--\n"
 	n := 3 + rng.Intn(4)
 	for i := 0; i < n; i++ {
 		t := &c09Type{name: fmt.Sprintf("§T%d", i), ptrRecv: map[string]bool{}}
@@ -60,14 +61,14 @@ func c09Hierarchy(rng *rand.Rand, feat map[string]int) (decls string, types []*c
 			used[name] = true
 			t.fields = append(t.fields, name+" "+[]string{"int", "string", "float64"}[rng.Intn(3)])
 		}
-		fmt.Fprintf(&b, "type %s struct {\n", t.name)
+		fmt.Fprintf(&b, "type %s struct {\n\tK%d int8 // makes the emulated struct type of every named type distinct\n", t.name, i)
 		for _, e := range t.embeds {
 			fmt.Fprintf(&b, "\t%s\n", e)
 		}
 		for _, f := range t.fields {
 			fmt.Fprintf(&b, "\t%s\n", f)
 		}
-		b.WriteString("}\n")
+		b.WriteString("}\n//--\n")
 		for m := 0; m < rng.Intn(4); m++ {
 			name := c09MethodNames[rng.Intn(len(c09MethodNames))]
 			if used[name] {
@@ -91,21 +92,21 @@ func c09Hierarchy(rng *rand.Rand, feat map[string]int) (decls string, types []*c
 			}
 			switch name {
 			case "Error":
-				fmt.Fprintf(&b, "func (%s) Error() string { return fmt.Sprint(\"%s.Error:\", %s) }\n", recv, strings.TrimPrefix(t.name, "§"), first)
+				fmt.Fprintf(&b, "func (%s) Error() string { return fmt.Sprint(\"%s.Error:\", %s) }\n//--\n", recv, strings.TrimPrefix(t.name, "§"), first)
 			case "Len":
-				fmt.Fprintf(&b, "func (%s) Len() int { return %d }\n", recv, 100+i)
+				fmt.Fprintf(&b, "func (%s) Len() int { return %d }\n//--\n", recv, 100+i)
 			default:
 				mut := ""
 				if ptr && len(t.fields) > 0 && strings.HasSuffix(t.fields[0], " int") {
 					mut = first + "++; "
 				}
-				fmt.Fprintf(&b, "func (%s) %s(k int) string { %sreturn fmt.Sprint(\"%s.%s:\", k, %s) }\n", recv, name, mut, strings.TrimPrefix(t.name, "§"), name, first)
+				fmt.Fprintf(&b, "func (%s) %s(k int) string { %sreturn fmt.Sprint(\"%s.%s:\", k, %s) }\n//--\n", recv, name, mut, strings.TrimPrefix(t.name, "§"), name, first)
 			}
 		}
 		types = append(types, t)
 	}
 	// interfaces over the method names
-	b.WriteString("type §IM interface { M(int) string }\ntype §IMN interface { M(int) string; N(int) string }\ntype §IG interface { Get(int) string }\ntype §IL interface { Len() int; M(int) string }\n")
+	b.WriteString("type §IM interface { M(int) string }\ntype §IMN interface { M(int) string; N(int) string }\ntype §IG interface { Get(int) string }\ntype §IL interface { Len() int; M(int) string }\n//--\n")
 	ifaces = []string{"§IM", "§IMN", "§IG", "§IL", "error"}
 	return b.String(), types, ifaces
 }
@@ -114,7 +115,7 @@ func c09Progs(id int, rng *rand.Rand, feat map[string]int) []*Prog {
 	decls, types, ifaces := c09Hierarchy(rng, feat)
 	var b strings.Builder
 	b.WriteString(decls)
-	b.WriteString("func §rc(t int) { if r := recover(); r != nil { rec(-t, pcl(r)) } }\n")
+	b.WriteString("func §rc(t int) { if r := recover(); r != nil { rec(-t, pcl(r)) } }\n//--\n")
 	// a constructor per type that fills embedded pointers so promoted access does not nil-deref (some left nil on purpose)
 	for i, t := range types {
 		fmt.Fprintf(&b, "func §new%d(seed int) %s {\nvar v %s\n", i, t.name, t.name)
@@ -140,7 +141,7 @@ func c09Progs(id int, rng *rand.Rand, feat map[string]int) []*Prog {
 				fmt.Fprintf(&b, "v.%s = float64(seed) + 0.5\n", fn[0])
 			}
 		}
-		b.WriteString("return v\n}\n")
+		b.WriteString("return v\n}\n//--\n")
 	}
 	typeDecls := b.String()
 	tag := 0
@@ -180,8 +181,16 @@ func c09Progs(id int, rng *rand.Rand, feat map[string]int) []*Prog {
 			if arg == "" {
 				comma = ""
 			}
-			site(nv+"rec(TAG, "+t.name+"."+m+"(v"+comma+arg+"))", "method-expr")
-			site(nv+"rec(TAG, (*"+t.name+")."+m+"(&v"+comma+arg+"))\nrec(TAG, v)", "method-expr-ptr")
+			declared := false
+			for _, dm := range t.methods {
+				declared = declared || dm == m
+			}
+			if declared && !t.ptrRecv[m] {
+				site(nv+"rec(TAG, "+t.name+"."+m+"(v"+comma+arg+"))", "method-expr")
+			}
+			if declared && t.ptrRecv[m] {
+				site(nv+"rec(TAG, (*"+t.name+")."+m+"(&v"+comma+arg+"))\nrec(TAG, v)", "method-expr-ptr")
+			}
 			site("rec(TAG, §new"+fmt.Sprint(i)+"(3)."+m+"("+arg+"))", "method-on-nonaddressable")
 		}
 		for _, in := range ifaces {
@@ -195,6 +204,20 @@ func c09Progs(id int, rng *rand.Rand, feat map[string]int) []*Prog {
 				call = "i.Len(), i.M(3)"
 			case "error":
 				call = "i.Error()"
+			}
+			if in == "error" {
+				// compiled interface: only with the receiver kind of the declaration on the type itself (known finding otherwise)
+				declared := false
+				for _, dm := range t.methods {
+					declared = declared || dm == "Error"
+				}
+				if declared && !t.ptrRecv["Error"] {
+					site(nv+"var i "+in+" = v\nrec(TAG, "+call+")", "iface-assign-value")
+				}
+				if declared && t.ptrRecv["Error"] {
+					site(nv+"var i "+in+" = &v\nrec(TAG, "+call+")\nrec(TAG, v)", "iface-assign-pointer")
+				}
+				continue
 			}
 			site(nv+"var i "+in+" = v\nrec(TAG, "+call+")", "iface-assign-value")
 			site(nv+"var i "+in+" = &v\nrec(TAG, "+call+")\nrec(TAG, v)", "iface-assign-pointer")
@@ -225,7 +248,7 @@ func c09Progs(id int, rng *rand.Rand, feat map[string]int) []*Prog {
 	var progs []*Prog
 	for _, kind := range kinds {
 		src := typeDecls + strings.Join(fnsOf[kind], "") + "func §P() {\n" + strings.Join(callsOf[kind], "\n") + "\n}\n"
-		progs = append(progs, &Prog{ID: fmt.Sprintf("c09-%d-%s", id, kind), Imports: []string{"fmt"}, Src: src, Cell: kind})
+		progs = append(progs, &Prog{ID: fmt.Sprintf("c09-%d-%s", id, kind), Imports: []string{"fmt"}, Src: src, Chunks: strings.Split(src, "\n//--\n"), Cell: kind})
 	}
 	return progs
 }
@@ -235,9 +258,13 @@ func c09Valid(frag string) bool {
 }
 
 func checkC09(r *fw.Run) {
-	r.SetRule("seeded random hierarchies of 3-6 named struct types (embedding by value and by pointer up to depth 3, fields and methods with names shadowed at different depths, value and pointer receivers, some embedded pointers left nil); for every type every candidate site is generated and kept only if go/types accepts it: field selectors through values and pointers, method calls, method values bound before the receiver changes, method expressions T.m and (*T).m, methods on non-addressable values, assignment of values and pointers to four interpreted interfaces and to error, interfaces as parameters, comma-ok and panicking assertions from interface{} to every concrete type and pointer type, one type switch over values of all types with multi-type cases and nil; each site runs under its own recover; oracle = trace equality with compiled Go; distinct = distinct program texts")
+	r.SetRule("seeded random hierarchies of 3-6 named struct types (embedding by value and by pointer up to depth 3, fields and methods with names shadowed at different depths, value and pointer receivers, some embedded pointers left nil); for every type every candidate site is generated and kept only if go/types accepts it: field selectors through values and pointers, method calls, method values bound before the receiver changes, method expressions T.m and (*T).m, methods on non-addressable values, assignment of values and pointers to four interpreted interfaces and to error, interfaces as parameters, comma-ok and panicking assertions from interface{} to every concrete type and pointer type, one type switch over values of all types with multi-type cases and nil; each site runs under its own recover; declarations are fed to the interpreter one at a time in source order (REPL style: order independence within one evaluation is property C16, not C09); oracle = trace equality with compiled Go; distinct = distinct program texts")
 	r.Assume("go/types + cmd/compile 1.23.5 (language go1.18) decide which sites are valid and what they compute; interface-to-interface assertions on interpreted types are not generated (documented limitation); no recursive types")
-	o := e1Opts{}
+	o := e1Opts{Findings: []e1Finding{
+		{"C09-method-expr-receiver-kind", "type §T struct{ A int }\nfunc (t §T) M() int { return t.A }\nfunc §P() { v := §T{3}; rec(1, (*§T).M(&v)) }\n"},
+		{"C09-method-expr-receiver-kind", "type §U struct{ B int }\nfunc (u *§U) L() int { return u.B }\ntype §T struct{ *§U }\nfunc §P() { v := §T{&§U{4}}; rec(1, §T.L(v)) }\n"},
+		{"C09-method-expr-receiver-kind", "type §T struct{ A int }\nfunc (t §T) Error() string { return \"e\" }\nfunc §P() { v := §T{3}; var e error = &v; rec(1, e.Error()) }\n"},
+	}}
 	if p := fw.ReplayArg(); p != "" {
 		e1ReplayFile(r, p, o)
 		return
@@ -249,6 +276,76 @@ func checkC09(r *fw.Run) {
 	for i := 0; i < n; i++ {
 		progs = append(progs, c09Progs(i, rng, feat)...)
 	}
+	// methods on named non-struct types (slice, integer, func, map, string)
+	for i, e := range [][2]string{{"int", "3"}, {"string", "\"q\""}, {"float64", "1.5"}} {
+		src := strings.NewReplacer("E", e[0], "X", e[1]).Replace(c09NonStruct)
+		progs = append(progs, &Prog{ID: fmt.Sprintf("c09-nonstruct-%d", i), Src: src, Chunks: strings.Split(src, "\n//--\n"), Cell: "named-nonstruct"})
+	}
 	r.Extra("features_generated", feat)
 	e1Run(r, progs, o)
 }
+
+const c09NonStruct = `type §V []E
+//--
+func (v §V) Count() int { return len(v) }
+//--
+func (v *§V) Push(x E) { *v = append(*v, x) }
+//--
+type §N int
+//--
+func (n §N) Double() §N { return n * 2 }
+//--
+func (n *§N) Inc() { *n++ }
+//--
+type §F func(E) E
+//--
+func (f §F) Twice(x E) E { return f(f(x)) }
+//--
+type §M map[string]E
+//--
+func (m §M) Get(k string) E { return m[k] }
+//--
+type §S string
+//--
+func (s §S) Len2() int { return len(s) * 2 }
+//--
+type §I interface { Double() §N }
+//--
+type §A [2]E
+//--
+func (a §A) First() E { return a[0] }
+//--
+func (a *§A) Set(x E) { a[1] = x }
+//--
+func §P() {
+	v := §V{X}
+	v.Push(X)
+	rec(1, v.Count(), v)
+	n := §N(4)
+	n.Inc()
+	rec(2, n.Double(), n)
+	f := §F(func(x E) E { return x + x })
+	rec(3, f.Twice(X))
+	m := §M{"a": X}
+	rec(4, m.Get("a"), m.Get("zz"), §S("abc").Len2())
+	var i §I = n
+	rec(5, i.Double())
+	g := v.Count
+	v = nil
+	rec(6, g(), §N.Double(3))
+	var a §A
+	a.Set(X)
+	pa := &a
+	rec(7, a.First(), pa.First(), a)
+	var e interface{} = n
+	k, ok := e.(§N)
+	_, ok2 := e.(§V)
+	rec(8, k, ok, ok2)
+	switch x := e.(type) {
+	case §V:
+		rec(9, len(x))
+	case §N:
+		rec(10, x.Double())
+	}
+}
+`
